@@ -162,5 +162,8 @@ def _project(case, out, log, init, ret_h):
     out.update(t0=rank[t0], tend=rank[tend], n_expected=expected_count(t0, dt, tend), init=cid(init), ret=cid(ret_h),
                steps=[dict(s=rank[s['t']], e=rank[s['e']], u0=cid(s['u0']), ue=cid(s['ue']), near_tend=bool(near(s['t'])),
                            end_near_tend=bool(near(s['e'])), contig=s['contig'], chain_ok=s['chain_ok'], first_ok=bool(close(s['t'], t0))) for s in steps],
-               raw=[(s['t'], s['dt']) for s in steps[-3:]])
+               raw=[(s['t'], s['dt']) for s in steps[-3:]],
+               # for every step: does its start fall short of Tend by MORE than the code's absolute threshold of 10 eps (evaluated with
+               # the code's own float expression)?  Only such a step can be the surplus step of the known rounding defect.
+               short=[bool(s['t'] < tend - 10 * np.finfo(float).eps) and not bool(s['t'] < tend - abs(dt) / 2) for s in steps])
     return out
